@@ -288,3 +288,290 @@ func CtlBoundsUse(s []byte, u []uint16, b *ctlBuf, m map[string]int, rows [][]by
 	t += ctlBoundsBadNested(rows) + ctlBoundsGoodNested(rows)
 	return t
 }
+
+// ---- second batch
+
+type ctlReader interface{ Next() int }
+
+type ctlCounter struct{ n int }
+
+func (c *ctlCounter) Next() int { c.n += 7; return c.n }
+
+var ctlGlobalIdx int
+
+func ctlBump() { ctlGlobalIdx += 100 }
+
+func ctlRead(src []byte, n int) ([]byte, error) {
+	if n < 0 || n > len(src) {
+		return nil, errCtl
+	}
+	return src[:n], nil
+}
+
+type ctlErr struct{}
+
+func (ctlErr) Error() string { return "ctl" }
+
+var errCtl error = ctlErr{}
+
+func ctlFill(idx []int) {
+	for i := range idx {
+		idx[i] = 1 << 20
+	}
+}
+
+// the helper's length contract holds only when its error is nil
+func ctlBoundsBadIgnoredErr(src []byte, n int) byte {
+	if n < 1 {
+		return 0
+	}
+	b, _ := ctlRead(src, n)
+	return b[n-1]
+}
+
+func ctlBoundsGoodContract(src []byte, n int) byte {
+	if n < 1 {
+		return 0
+	}
+	b, err := ctlRead(src, n)
+	if err != nil {
+		return 0
+	}
+	return b[n-1]
+}
+
+// remainder of a negative dividend is negative
+func ctlBoundsBadRem(s []byte, i int) byte {
+	if len(s) == 0 {
+		return 0
+	}
+	return s[i%len(s)]
+}
+
+func ctlBoundsGoodRem(s []byte, i int) byte {
+	if len(s) == 0 || i < 0 {
+		return 0
+	}
+	return s[i%len(s)]
+}
+
+// a store through an overlapping slice changes the checked element
+func ctlBoundsBadOverlap(s []byte, t []byte) byte {
+	if len(s) < 2 || int(s[0]) >= len(t) {
+		return 0
+	}
+	a := s[:1]
+	a[0] = 255
+	return t[s[0]]
+}
+
+// a map entry is updated between check and use
+func ctlBoundsBadMapUpdate(s []byte, m map[string]int) byte {
+	if v := m["a"]; v < 0 || v >= len(s) {
+		return 0
+	}
+	m["a"] = len(s)
+	return s[m["a"]]
+}
+
+// a captured variable is changed by the closure
+func ctlBoundsBadCaptured(s []byte, i int) byte {
+	bump := func() { i += 100 }
+	if i >= 0 && i < len(s) {
+		bump()
+		return s[i]
+	}
+	return 0
+}
+
+// a package variable is changed by a callee
+func ctlBoundsBadGlobal(s []byte) byte {
+	if ctlGlobalIdx >= 0 && ctlGlobalIdx < len(s) {
+		ctlBump()
+		return s[ctlGlobalIdx]
+	}
+	return 0
+}
+
+// conversion of a negative value to an unsigned type
+func ctlBoundsBadUnsignedConv(s []byte, x int) byte {
+	if x < len(s) {
+		return s[uint32(x)]
+	}
+	return 0
+}
+
+// narrowing to a signed 16-bit value can make it negative
+func ctlBoundsBadNarrow16(s []byte, n int) byte {
+	if n >= 0 && n < len(s) {
+		return s[int(int16(n))]
+	}
+	return 0
+}
+
+func ctlBoundsGoodNarrow16(s []byte, n int) byte {
+	if n >= 0 && n < len(s) && n < 1000 {
+		return s[int(int16(n))]
+	}
+	return 0
+}
+
+// the step of a counting loop may be zero or negative
+func ctlBoundsBadStep(s []byte, step int) int {
+	t := 0
+	for i := 0; i < len(s); i += step {
+		t += int(s[i])
+		if t > 1000 {
+			break
+		}
+	}
+	return t
+}
+
+func ctlBoundsGoodStep(s []byte, step int) int {
+	t := 0
+	if step < 1 {
+		return 0
+	}
+	for i := 0; i < len(s); i += step {
+		t += int(s[i])
+	}
+	return t
+}
+
+// counting down from len, not len-1
+func ctlBoundsBadDown(s []byte) int {
+	t := 0
+	for i := len(s); i >= 0; i-- {
+		t += int(s[i])
+	}
+	return t
+}
+
+func ctlBoundsGoodDown(s []byte) int {
+	t := 0
+	for i := len(s) - 1; i >= 0; i-- {
+		t += int(s[i])
+	}
+	return t
+}
+
+// a second index advances faster than the loop counter
+func ctlBoundsBadTwoIndex(s []byte) int {
+	t, j := 0, 0
+	for i := 0; i < len(s); i++ {
+		t += int(s[j])
+		j += 2
+	}
+	return t
+}
+
+func ctlBoundsGoodTwoIndex(s []byte) int {
+	t, j := 0, 0
+	for i := 0; i+1 < len(s); i += 2 {
+		t += int(s[j]) + int(s[j+1])
+		j += 2
+	}
+	return t
+}
+
+// the slice shrinks inside the loop
+func ctlBoundsBadShrinking(s []byte) int {
+	t := 0
+	n := len(s)
+	for i := 0; i < n; i++ {
+		t += int(s[i])
+		s = s[:len(s)/2]
+	}
+	return t
+}
+
+// copy returns the shorter length
+func ctlBoundsBadCopy(dst, src []byte) byte {
+	if len(src) == 0 {
+		return 0
+	}
+	n := copy(dst, src)
+	return dst[n-1]
+}
+
+func ctlBoundsGoodAppend(s, x []byte) byte {
+	if len(x) == 0 {
+		return 0
+	}
+	t := append(s, x...)
+	return t[len(s)+len(x)-1]
+}
+
+// the callee overwrites the checked element
+func ctlBoundsBadCalleeWrites(s []byte, idx []int) byte {
+	if len(idx) == 0 || idx[0] < 0 || idx[0] >= len(s) {
+		return 0
+	}
+	ctlFill(idx)
+	return s[idx[0]]
+}
+
+// a dynamic call changes the receiver's state
+func ctlBoundsBadDynamic(s []byte, c *ctlCounter, r ctlReader) byte {
+	if c.n >= 0 && c.n < len(s) {
+		r.Next() // may be c
+		return s[c.n]
+	}
+	return 0
+}
+
+// a pointer to a local
+func ctlBoundsBadLocalPtr(s []byte, i int) byte {
+	p := &i
+	if i >= 0 && i < len(s) {
+		*p = len(s)
+		return s[i]
+	}
+	return 0
+}
+
+// reset on one path around the loop
+func ctlBoundsBadReset(s []byte, marks []bool) int {
+	t := 0
+	pos := 0
+	for _, m := range marks {
+		if pos >= len(s) {
+			return t
+		}
+		t += int(s[pos])
+		if m {
+			pos = -1
+		}
+		pos++
+		if !m {
+			pos -= 2
+		}
+	}
+	return t
+}
+
+// an array indexed by a byte-sized value fits, by a 16-bit value does not
+func ctlBoundsGoodArray(tbl *[256]int, b byte) int { return tbl[b] }
+
+func ctlBoundsBadArray(tbl *[256]int, v uint16) int { return tbl[v] }
+
+// slicing up to the capacity is legal, indexing beyond the length is not
+func ctlBoundsBadCapLen(s []byte, n int) byte {
+	if n < 1 || n > cap(s) {
+		return 0
+	}
+	return s[n-1]
+}
+
+// CtlBoundsUse2 keeps the second batch reachable.
+func CtlBoundsUse2(s []byte, m map[string]int, c *ctlCounter, tbl *[256]int, marks []bool) int {
+	t := int(ctlBoundsBadIgnoredErr(s, 2)) + int(ctlBoundsGoodContract(s, 2)) + int(ctlBoundsBadRem(s, -1)) + int(ctlBoundsGoodRem(s, 1))
+	t += int(ctlBoundsBadOverlap(s, s)) + int(ctlBoundsBadMapUpdate(s, m)) + int(ctlBoundsBadCaptured(s, 1)) + int(ctlBoundsBadGlobal(s))
+	t += int(ctlBoundsBadUnsignedConv(s, -1)) + int(ctlBoundsBadNarrow16(s, 40000)) + int(ctlBoundsGoodNarrow16(s, 4))
+	t += ctlBoundsBadStep(s, 0) + ctlBoundsGoodStep(s, 1) + ctlBoundsBadDown(s) + ctlBoundsGoodDown(s)
+	t += ctlBoundsBadTwoIndex(s) + ctlBoundsGoodTwoIndex(s) + ctlBoundsBadShrinking(s) + int(ctlBoundsBadCopy(nil, s)) + int(ctlBoundsGoodAppend(s, s))
+	t += int(ctlBoundsBadCalleeWrites(s, []int{1})) + int(ctlBoundsBadDynamic(s, c, c)) + int(ctlBoundsBadLocalPtr(s, 1)) + ctlBoundsBadReset(s, marks)
+	t += ctlBoundsGoodArray(tbl, 3) + ctlBoundsBadArray(tbl, 300) + int(ctlBoundsBadCapLen(s, 2))
+	return t
+}
